@@ -79,7 +79,7 @@ Section AcceptedW.
       by (rewrite <- (dec_string_respects _ _ (field_opt_jequiv "revealValue" _ _ ND Ev')); reflexivity).
     assert (Fd : dec_string (field "signedData" m') = Some sd)
       by (rewrite <- (dec_string_respects _ _ (field_opt_jequiv "signedData" _ _ ND Ev')); reflexivity).
-    destruct (header_roundtrip cfg uri_ok url_norm _ _ Ehb Halgne Halg) as [h' [Hph [Hhas [Hhr Hhbne]]]].
+    destruct (header_roundtrip cfg uri_ok url_norm _ _ Ehb Halgne Halg) as [h' [Hph [Hhas [Hhr [Hhbne Hdup]]]]].
     assert (Wpl : wfnum (JObj (deactivate_signed_members_w (di_suffix i) (di_key i) f u))).
     { constructor. unfold deactivate_signed_members_w, deactivate_signed_members. apply Forall_app. split.
       - repeat (constructor; [first [exact (W_str _) | exact (wfnum_img_jwk _)]|]). constructor.
@@ -237,7 +237,7 @@ Section AcceptedRecoverW.
     destruct (field "delta" m') as [xd|] eqn:Exd; [|contradiction].
     destruct (dec_delta_jequiv d0 xd Hobj Hwf Hd) as [ps' [Dd [Fps [Ops Wps]]]]. cbn [d_update_c d_patches d0] in Dd, Fps.
     set (d' := {| d_update_c := ri_update_c i; d_patches := ps' |}) in *.
-    destruct (header_roundtrip cfg uri_ok url_norm _ _ Ehb Halgne Halg) as [h' [Hph [Hhas [Hhr Hhbne]]]].
+    destruct (header_roundtrip cfg uri_ok url_norm _ _ Ehb Halgne Halg) as [h' [Hph [Hhas [Hhr [Hhbne Hdup]]]]].
     (* the payload *)
     assert (Wpl : wfnum (JObj (recover_signed_members_w dh0 (ri_key i) (ri_recovery_c i) (ri_origin i) f u))).
     { constructor. unfold recover_signed_members_w, recover_signed_members. apply Forall_app. split.
